@@ -1,5 +1,5 @@
 (* src/javadoc.rs (as repaired: positions are counted in bytes) *)
-From AidlV Require Export Lib.Regex Model.Sem.
+From AidlV Require Export Lib.Regex Model.Sem Gen.JavadocRe.
 
 Inductive fstate := FIdle | FLineOrElse | FLineOrElseBeforeSlash | FBeforeEndSlash | FInside | FBeforeBeginStar | FBeforeBeginStarStar.
 
@@ -56,14 +56,13 @@ Definition find_content_string (input : str) : option (option str) :=
   | _ => Some None
   end.
 
-Definition cls_blank : list (N * N) := [(32, 32); (9, 9); (42, 42)].                    (* [ \t*] *)
-Definition cls_noise : list (N * N) := [(32, 32); (9, 9); (13, 13); (10, 10); (42, 42)].  (* [ \t\r\n*] *)
-Definition re_para : re := RSeqs [ROpt (RClass [(13, 13)]); RClass [(10, 10)]; RStar (RClass cls_blank);
-                                  ROpt (RClass [(13, 13)]); RClass [(10, 10)]].
-Definition re_join : re := RSeqs [RStar (RClass cls_noise); RClass [(10, 10)]; RStar (RClass cls_noise)].
-Definition re_tag : re := RSeqs [RClass [(0, 9); (11, 1114111)]; RStar (RClass [(32, 32); (9, 9)]); RClass [(64, 64)]].
+(* the three regular expressions and the trim set are regenerated from src/javadoc.rs (Gen/JavadocRe.v):
+   "\r?\n[ \t*]*\r?\n" (split), "[ \t\r\n*]*\n[ \t\r\n*]*" (-> one space), "([^\n])[ \t]*@" (-> "${1}\n@") *)
+Definition re_para : re := gen_re_para.
+Definition re_join : re := gen_re_join.
+Definition re_tag : re := gen_re_tag.
 
-Definition is_noise (c : N) : bool := in_class cls_noise c.
+Definition is_noise (c : N) : bool := in_class gen_trim_class c.
 Fixpoint drop_while (f : N -> bool) (s : str) : str := match s with c :: s' => if f c then drop_while f s' else s | [] => [] end.
 Definition trim_noise (s : str) : str := rev (drop_while is_noise (rev (drop_while is_noise s))).
 
